@@ -110,8 +110,49 @@ def gen_directed():
     return cases
 
 
+def merges(a, b):
+    """all interleavings of a steps of thread 0 and b steps of thread 1"""
+    if a == 0 or b == 0:
+        return [[0] * a + [1] * b]
+    return [[0] + m for m in merges(a - 1, b)] + [[1] + m for m in merges(a, b - 1)]
+
+
+def gen_exhaustive_merges(n0, n1, sinks=("S",), caps=(16,), stride=1):
+    """EVERY program pair of two threads with n0 / n1 operations over {small emit, emit that fills the buffer exactly,
+    oversized emit, flush} in EVERY order in which their critical sections can follow each other (the sink's lock makes
+    each call atomic, so these orders are all the interleavings there are at that granularity)"""
+    import itertools
+    cases = []
+    k = 0
+    for sink in sinks:
+        for cap in caps:
+            def op(kind, t, j):
+                base = "t%d.%d" % (t, j)
+                if kind == "f":
+                    return "F" if (t + j) % 2 == 0 else "f"
+                n = {"s": 6, "x": cap - 1, "b": cap + 3}[kind]
+                suffix = ":1|g"
+                return "E" + hx((base + "e" * max(0, n - len(base) - len(suffix)) + suffix).encode())
+            for k0 in itertools.product("sxbf", repeat=n0):
+                for k1 in itertools.product("sxbf", repeat=n1):
+                    for m in merges(n0, n1):
+                        k += 1
+                        if k % stride:
+                            continue
+                        p0 = [op(x, 0, j) for j, x in enumerate(k0)]
+                        p1 = [op(x, 1, j) for j, x in enumerate(k1)]
+                        cases.append("C %s %d u seq 1 %s/%s %s" % (sink, cap, ",".join(p0), ",".join(p1), ",".join(map(str, m))))
+    return cases
+
+
 def gen_cases(rng, n_seq, n_free):
     cases = gen_directed()
+    # every order of the critical sections of every small program pair
+    big = n_seq + n_free > 5000
+    cases += gen_exhaustive_merges(2, 2, ("S",), (16, 9) if big else (16,))
+    cases += gen_exhaustive_merges(2, 2, ("U", "X"), (16,), stride=1 if big else 8)
+    if big:
+        cases += gen_exhaustive_merges(3, 2, ("S",), (16,)) + gen_exhaustive_merges(3, 3, ("S",), (12,), stride=4)
     # fixed ones first: every sink, contended hand-over at the exact fit
     cases.append("C S 16 u seq 1 C74302e61,C74302e62,F/C74312e61,E74312e783a317c63/C7432 0,1,2,0+1,1,0")
     cases.append("C U d u seq 1 C74302e61,C74302e62,F/C74312e61,E74312e783a317c63/C7432 0+1+2,0+1,0")
@@ -446,6 +487,9 @@ def check_C12(tier, seed):
     rep.cov["evaluations"] = len(cases)
     rep.cov["distinct_nontrivial"] = len(nt)
     rep.cov["exhaustive"] = False
+    rep.cov["exhaustive_part"] = ("every pair of 2-operation programs over {small / exact-fill / oversized emit, flush} in every "
+                                  "order of their critical sections on the buffered spy sink (1536 cases; thorough: 3x2 and a "
+                                  "quarter of 3x3 as well); the remaining schedules are sampled")
     rep.cov["rule"] = (
         "seeded random programs (2-8 threads; emits through the shared StatsdClient and directly on the shared sink, flushes; "
         "line lengths around a fraction of the capacity, the exact fit and one more; capacities 0..128 and the default 512) "
